@@ -306,10 +306,12 @@ fn random_plan(p: &mut Prng, baseline: &Observed, files: &[String], artifacts: &
 pub struct Case {
     pub name: String,
     pub files: Files,
+    /// abstract project (generated cases): lets the world contain a *stale* artifact set
+    pub proj: Option<crate::genp::project::Project>,
 }
 
 pub fn cases(opts: &Opts) -> Vec<Case> {
-    let mut out: Vec<Case> = ops::corpus().into_iter().map(|c| Case { name: c.name, files: c.files }).collect();
+    let mut out: Vec<Case> = ops::corpus().into_iter().map(|c| Case { name: c.name, files: c.files, proj: None }).collect();
     let n = opts.n(500, 600);
     for i in 0..n {
         let mut p = Prng::derive(opts.seed, i as u64, "c04-project");
@@ -321,7 +323,8 @@ pub fn cases(opts: &Opts) -> Vec<Case> {
             proj.pkgs[pi].raw = crate::genp::variants::multi_error_text(&mut p);
             name.push_str("+errors");
         }
-        out.push(Case { name, files: proj.render() });
+        let keep = if i % 5 == 4 { None } else { Some(proj.clone()) };
+        out.push(Case { name, files: proj.render(), proj: keep });
     }
     out
 }
@@ -374,6 +377,58 @@ pub fn prepare(sb: &Sandbox, case: &Case) -> (Files, Vec<OpSpec>, Vec<String>, V
                 a.push(s("--output"));
                 a.push(s("{ROOT}/linked/main.go"));
                 opsv.push(OpSpec { entry: "link".into(), args: a });
+            }
+            // a stale artifact set: one package was edited (its enum variants / struct fields
+            // swapped, or a field added) and rebuilt, its dependents were not. Offering that
+            // set to `link` must end in a diagnostic, whatever the staleness check looks like.
+            if let Some(proj) = &case.proj {
+                let n = proj.pkgs.len();
+                let cand = (1..n).find(|d| (0..n).any(|c| proj.pkgs[c].imports.contains(d)));
+                if let Some(d) = cand {
+                    use crate::genp::project::Edit;
+                    let pk = &proj.pkgs[d];
+                    let edit = if pk.enums.iter().any(|e| e.variants.len() >= 2) {
+                        Edit::SwapVariants { p: d, e: pk.enums.iter().position(|e| e.variants.len() >= 2).unwrap() }
+                    } else if pk.structs.iter().any(|s| s.fields.len() >= 2) {
+                        Edit::SwapFields { p: d, s: pk.structs.iter().position(|s| s.fields.len() >= 2).unwrap() }
+                    } else {
+                        Edit::AddFn { p: d }
+                    };
+                    let mut edited = proj.clone();
+                    edited.apply_edit(&edit, 4242);
+                    let dn = proj.pkgs[d].name.clone();
+                    let mut inputs = Vec::new();
+                    for (f, b) in edited.render_pkg(d) {
+                        let rel = format!("edited/{f}");
+                        sb.write(&rel, &b);
+                        inputs.push(sb.path(&rel));
+                    }
+                    for nme in &order {
+                        if let Some(b) = sb.read(&format!("out/{nme}.core")) {
+                            sb.write(&format!("stale/{nme}.core"), &b);
+                        }
+                        if let Some(b) = sb.read(&format!("out/{nme}.interface")) {
+                            sb.write(&format!("stale/{nme}.interface"), &b);
+                        }
+                    }
+                    let mut a = vec![s("goml"), s("build"), s("--package"), dn.clone(), s("--input")];
+                    a.extend(inputs);
+                    a.push(s("--interface-path"));
+                    a.push(sb.path("out"));
+                    a.push(s("--output"));
+                    a.push(sb.path(&format!("stale/{dn}")));
+                    let r = ops::goml(sb, &ProcSpec { entropy: 9, readdir: 9, ..Default::default() }, a);
+                    if r.exit == Exit::Ok {
+                        let mut a = vec![s("goml"), s("link"), s("--input")];
+                        a.extend(order.iter().map(|n| format!("{{ROOT}}/stale/{n}.core")));
+                        a.push(s("--output"));
+                        a.push(s("{ROOT}/linked/main.go"));
+                        opsv.push(OpSpec { entry: "link".into(), args: a });
+                        for nme in &order {
+                            artifacts.push(format!("stale/{nme}.core"));
+                        }
+                    }
+                }
             }
         }
     }
@@ -948,7 +1003,7 @@ pub fn exec_one(file: &Value) -> i32 {
     let r = &file["replay"];
     let sources = files_from_json(&r["world_sources"]);
     let sb = Sandbox::new("c04exec").expect("sandbox");
-    let case = Case { name: "replay".into(), files: sources };
+    let case = Case { name: "replay".into(), files: sources, proj: None };
     let (base, _, _, _) = prepare(&sb, &case);
     let op: OpSpec = match serde_json::from_value(r["op"].clone()) {
         Ok(o) => o,
